@@ -158,7 +158,11 @@ def run(ctx):
     rows = sorted(set(itertools.product(rates, accels, jerks)))
     part = core.fan_out(ctx, _rows_chunk, [(c, max_ticks) for c in core.split(rows, 128)])
     s_rates, s_accels, s_jerks, s_ticks = short_alphabets()
-    rows2 = sorted(set(itertools.product(s_rates, s_accels, s_jerks)))
+    rows2 = set(itertools.product(s_rates, s_accels, s_jerks))
+    # rows touching 2^31-1 or -2^31 (valid, no positive counterpart) exactly at a chosen tick
+    from .c02 import edge_rows              # pylint: disable=import-outside-toplevel
+    rows2 |= {row[:3] for row in edge_rows([0], s_ticks)}
+    rows2 = sorted(rows2)
     part.merge(core.fan_out(ctx, _rows_chunk, [(c, s_ticks) for c in core.split(rows2, 64)]))
     part.merge(core.fan_out(ctx, _limit_chunk,
                             [(c, ctx.pick(200, 600)) for c in core.split(limit_rows(ctx), 64)]))
@@ -171,7 +175,7 @@ def run(ctx):
         "evaluations": cnt.get("states", 0),
         "distinct_nontrivial": cnt.get("interior_peak_states", 0),
         "rule": "T3 machine stepped from every (rate, accel, jerk) of two lattices (interior-"
-                "extremum lattice up to max_ticks, boundary lattice up to 24 ticks) inside the "
+                "extremum lattice up to max_ticks, boundary lattice up to 24 ticks, incl. rows touching 2^31-1 / -2^31 at a chosen tick) inside the "
                 "domain; max_rate_t3 called at every state (T = tick index); rows crossing the "
                 "2^31-1 limit stepped with a wider register for the 'reported as within the limit' "
                 "clause; non-trivial = states "
